@@ -544,6 +544,28 @@ Theorem C04_js_call_correct : forall cf p,
 Proof. exact js_call_correct. Qed.
 Print Assumptions C04_js_call_correct.
 
+(* the same for ANY table that holds, under the name of each template, its function generated from some counter -- in
+   particular the table of one file, c04_jprog_chain p n: the counter of scope.go is never reset inside a file, so the
+   next template starts where the body of this one stopped (c04_chain) *)
+Theorem C04_js_call_correct_tbl : forall cf p,
+  (forall x, c_ij cf = Some x -> core_value x = true) ->
+  forall jp, c04_table_ok p jp ->
+  forall k, js_callee_ok (c_ij cf) (c04_tout (c_ij cf) go_print_text p k) (c04_jcall jp k).
+Proof. exact js_call_correct_tbl. Qed.
+Print Assumptions C04_js_call_correct_tbl.
+Theorem C04_jprog_chain_ok : forall p n, c04_table_ok p (c04_jprog_chain p n).
+Proof. exact c04_jprog_chain_ok. Qed.
+(* and that table IS what the generator writes for the templates of a file: walking the soydoc and template nodes of the
+   program in order (state.walk of Model/JsGen.v from counter n, at the file's level) emits, template after template,
+   the function c04_jprog_chain holds for it (c04_file_chunks), each from the counter the chain gives it.  (The lines
+   before them -- header comment, namespace declarations -- and the imports gen_file prepends are not part of it.) *)
+Theorem C04_gen_templates : forall o, cn_ok o -> o_msgs o = None -> forall nsae F p n st bf,
+  (forall t, In t p -> ct_ns_ae t = nsae /\ (S (S (bdepth (ct_body t))) < F)%nat /\ bwf [] (ct_body t) = true) ->
+  shape st 0 bf nsae [[]] n ->
+  exists bf' n', gres (jwalk_list (jwalk o F) (flat_map c04_doc_nodes p)) st (c04_file_chunks o p n) 0 bf' nsae [[]] n'.
+Proof. exact gen_templates. Qed.
+Print Assumptions C04_gen_templates.
+
 (* a template of a program built from the proved stages, the three sides together: whenever the subset semantics gives
    a text for the template and data at call depth k,
    (Go)  evalCall entering it (call_enter) writes exactly that text;
@@ -604,6 +626,8 @@ Definition ex_cf : cfg :=
 Example C04_call_nonvacuous :
   c04_tout None go_print_text ex_prog 3 (b "ns.main") (fun q => assoc_s q ex_data) = Some (b "4[4-5<4]7[7-8<7]")
   /\ c04_jcall (c04_jprog ex_prog (fun _ => 0)) 3 (b "ns.main") (to_js (VMap 1 ex_data)) JUndef = Ok (b "4[4-5<4]7[7-8<7]")
+  /\ c04_jcall (c04_jprog_chain ex_prog 0) 3 (b "ns.main") (to_js (VMap 1 ex_data)) JUndef = Ok (b "4[4-5<4]7[7-8<7]")
+  /\ map snd (c04_chain ex_prog 0) = [0; 1]
   /\ (let r := render ex_cf 40 (b "ns.main") 1 ex_data None None 10 in (rr_outcome r, concat_b (rr_writes r))) = (Ok tt, b "4[4-5<4]7[7-8<7]")
   /\ render_chunks is_print_tbl (c04_tprint (template_header_line {| o_fmt := ES5; o_msgs := None; o_order := fun l => l |} (b "ns.main")) false (c04_jbody ex_main 0)) = b
 "
